@@ -13,6 +13,16 @@ pub trait Elem:
 {
     fn read(t: &mut Toks) -> Self;
     fn show(self) -> String;
+    /// equal as values of the element type (floats: NaN = NaN, -0 = +0)
+    fn same(self, other: Self) -> bool {
+        self == other
+    }
+    const IS_INT: bool;
+    fn one() -> Self;
+    /// `Arr2D::identity` where the element type has `From<i32>`
+    fn real_ident(_n: usize) -> Option<Arr2D<Self>> {
+        None
+    }
 }
 impl Elem for i64 {
     fn read(t: &mut Toks) -> Self {
@@ -20,6 +30,13 @@ impl Elem for i64 {
     }
     fn show(self) -> String {
         format!("{self}")
+    }
+    const IS_INT: bool = true;
+    fn one() -> Self {
+        1
+    }
+    fn real_ident(n: usize) -> Option<Arr2D<Self>> {
+        Some(Arr2D::identity(n))
     }
 }
 impl Elem for f64 {
@@ -29,14 +46,76 @@ impl Elem for f64 {
     fn show(self) -> String {
         fbits(self)
     }
+    fn same(self, other: Self) -> bool {
+        self == other || (self.is_nan() && other.is_nan())
+    }
+    const IS_INT: bool = false;
+    fn one() -> Self {
+        1.0
+    }
+    fn real_ident(n: usize) -> Option<Arr2D<Self>> {
+        Some(Arr2D::identity(n))
+    }
+}
+// further element types (rare instances of the same generic code): requests carry values that are exact in the
+// narrow type, so the model answers them with its integer / binary64 instance
+impl Elem for i32 {
+    fn read(t: &mut Toks) -> Self {
+        i32::try_from(t.i64()).expect("i32 request value")
+    }
+    fn show(self) -> String {
+        format!("{self}")
+    }
+    const IS_INT: bool = true;
+    fn one() -> Self {
+        1
+    }
+    fn real_ident(n: usize) -> Option<Arr2D<Self>> {
+        Some(Arr2D::identity(n))
+    }
+}
+impl Elem for u8 {
+    fn read(t: &mut Toks) -> Self {
+        u8::try_from(t.i64()).expect("u8 request value")
+    }
+    fn show(self) -> String {
+        format!("{self}")
+    }
+    const IS_INT: bool = true;
+    fn one() -> Self {
+        1
+    }
+}
+impl Elem for f32 {
+    fn read(t: &mut Toks) -> Self {
+        let x = t.f64();
+        let y = x as f32;
+        assert!(y as f64 == x || x.is_nan(), "f32 request value is not exact");
+        y
+    }
+    fn show(self) -> String {
+        fbits(self as f64)
+    }
+    fn same(self, other: Self) -> bool {
+        self == other || (self.is_nan() && other.is_nan())
+    }
+    const IS_INT: bool = false;
+    fn one() -> Self {
+        1.0
+    }
 }
 
 /// plain grid used by the oracle (independent of Arr2D)
-#[derive(Clone, Debug, PartialEq)]
+#[derive(Clone, Debug)]
 pub struct Grid<T> {
     pub h: usize,
     pub w: usize,
     pub v: Vec<T>,
+}
+impl<T: Elem> PartialEq for Grid<T> {
+    fn eq(&self, o: &Self) -> bool {
+        self.h == o.h && self.w == o.w && self.v.len() == o.v.len() && self.v.iter().zip(&o.v).all(|(a, b)| a.same(*b))
+    }
 }
 impl<T: Elem> Grid<T> {
     fn at(&self, i: usize, j: usize) -> T {
@@ -174,12 +253,36 @@ fn run_ty<T: Elem>(cmd: &str, t: &mut Toks) -> Obs {
                 None => Obs::with("panic".into(), Err("operator panicked".into())),
                 Some(m) => {
                     let g = Grid::of_arr(&m);
-                    let verdict = match checked {
-                        Some(Ok(c)) => {
-                            if Grid::of_arr(&c) == g { Ok(()) } else { Err("operator differs from checked product".into()) }
-                        }
-                        _ => Ok(()),
+                    let verdict = match &checked {
+                        None => Err("checked product panicked".to_string()),
+                        Some(c) => dot_oracle(&a, &b, c).map_err(|e| format!("checked product: {e}")).and_then(|_| match c {
+                            Ok(c) => {
+                                if Grid::of_arr(c) == g { Ok(()) } else { Err("operator differs from checked product".to_string()) }
+                            }
+                            // a refused product must not come back as a plausible matrix
+                            Err(_) => {
+                                if m.is_empty() && m.size() == 0 {
+                                    Ok(())
+                                } else {
+                                    Err(format!("the checked product is refused but the operator returns a {}x{} matrix", m.height, m.width))
+                                }
+                            }
+                        }),
                     };
+                    // the statement's table, independently of the checked product
+                    let verdict = verdict.and_then(|_| {
+                        let want = if a.w == b.h {
+                            Some(a.product(&b))
+                        } else if a.h == 1 && a.w == 1 {
+                            Some(b.scaled(a.v[0]))
+                        } else {
+                            None
+                        };
+                        match want {
+                            Some(w) if w != g => Err(format!("operator result {} but the product is {}", g.show(), w.show())),
+                            _ => Ok(()),
+                        }
+                    });
                     Obs::with(g.show(), verdict)
                 }
             }
@@ -199,17 +302,22 @@ fn run_ty<T: Elem>(cmd: &str, t: &mut Toks) -> Obs {
             match r {
                 None => {
                     // integer division by zero is the only documented panic
-                    let expected = !is_mul && s == T::default() && T::default().show() == "0" && a.h * a.w > 0;
+                    let expected = !is_mul && s == T::default() && T::IS_INT && a.h * a.w > 0;
                     Obs::with("panic".into(), if expected { Ok(()) } else { Err("scalar operator panicked".into()) })
                 }
                 Some(m) => {
                     let g = Grid::of_arr(&m);
-                    let want = Grid {
+                    let want = catch(|| Grid {
                         h: a.h,
                         w: a.w,
-                        v: a.v.iter().map(|x| if is_mul { *x * s } else { *x / s }).collect(),
+                        v: a.v.iter().map(|x| if is_mul { *x * s } else { *x / s }).collect::<Vec<T>>(),
+                    });
+                    let verdict = match want {
+                        None => Err(format!("the elementwise operation has no value here (integer division by zero) but the operator returned {}", g.show())),
+                        Some(want) if g == want => Ok(()),
+                        Some(want) => Err(format!("scalar operator is not elementwise: got {} want {}", g.show(), want.show())),
                     };
-                    Obs::with(g.show(), if g == want { Ok(()) } else { Err("scalar operator is not elementwise".into()) })
+                    Obs::with(g.show(), verdict)
                 }
             }
         }
@@ -221,21 +329,23 @@ fn run_ty<T: Elem>(cmd: &str, t: &mut Toks) -> Obs {
         }
         "assoc" | "tprod" | "ident" => {
             let a = Grid::<T>::read(t);
-            let (l, r, strict) = match cmd {
+            let (l, r, strict, want) = match cmd {
                 "assoc" => {
                     let b = Grid::<T>::read(t);
                     let c = Grid::<T>::read(t);
                     let (aa, bb, cc) = (a.to_arr(), b.to_arr(), c.to_arr());
                     let l = aa.dot(&bb).and_then(|ab| ab.dot(&cc));
                     let r = bb.dot(&cc).and_then(|bc| aa.dot(&bc));
-                    (l, r, a.w == b.h && b.w == c.h)
+                    let strict = a.w == b.h && b.w == c.h;
+                    (l, r, strict, if strict { Some(a.product(&b).product(&c)) } else { None })
                 }
                 "tprod" => {
                     let b = Grid::<T>::read(t);
                     let (aa, bb) = (a.to_arr(), b.to_arr());
                     let l = aa.dot(&bb).map(|m| m.transpose());
                     let r = bb.transpose().dot(&aa.transpose());
-                    (l, r, a.w == b.h)
+                    let strict = a.w == b.h;
+                    (l, r, strict, if strict { Some(a.product(&b).transposed()) } else { None })
                 }
                 _ => {
                     let aa = a.to_arr();
@@ -244,7 +354,27 @@ fn run_ty<T: Elem>(cmd: &str, t: &mut Toks) -> Obs {
                     let l = idl.dot(&aa);
                     let r = aa.dot(&idr);
                     let ok = |x: &Result<Arr2D<T>, Arr2DError>| x.as_ref().ok().map(|m| Grid::of_arr(m) == a).unwrap_or(false);
-                    let verdict = if ok(&l) && ok(&r) { Ok(()) } else { Err("identity law fails".into()) };
+                    let mut verdict = if ok(&l) && ok(&r) { Ok(()) } else { Err("identity law fails".to_string()) };
+                    // `Arr2D::identity` itself: ones on the diagonal, zeros elsewhere, neutral on both sides
+                    if let (Some(il), Some(ir)) = (catch(|| T::real_ident(a.h)), catch(|| T::real_ident(a.w))) {
+                        if let (Some(il), Some(ir)) = (il, ir) {
+                            if Grid::of_arr(&il) != Grid::of_arr(&idl) || Grid::of_arr(&ir) != Grid::of_arr(&idr) {
+                                verdict = verdict.and(Err("Arr2D::identity is not the identity matrix".into()));
+                            }
+                            let (l2, r2) = (il.dot(&aa), aa.dot(&ir));
+                            if !(ok(&l2) && ok(&r2)) {
+                                verdict = verdict.and(Err("identity law fails for Arr2D::identity".into()));
+                            }
+                            // operator forms with the identity
+                            let viaop = catch(|| (&il * &aa, aa.clone() * ir.clone()));
+                            match viaop {
+                                Some((x, y)) if Grid::of_arr(&x) == a && Grid::of_arr(&y) == a => {}
+                                _ => verdict = verdict.and(Err("identity law fails through the operator".into())),
+                            }
+                        }
+                    } else {
+                        verdict = verdict.and(Err("Arr2D::identity panicked".into()));
+                    }
                     return Obs::with(format!("L {} R {}", show_dot(&l), show_dot(&r)), verdict);
                 }
             };
@@ -253,7 +383,11 @@ fn run_ty<T: Elem>(cmd: &str, t: &mut Toks) -> Obs {
                 None
             } else {
                 Some(match (&l, &r) {
-                    (Ok(x), Ok(y)) if Grid::of_arr(x) == Grid::of_arr(y) => Ok(()),
+                    (Ok(x), Ok(y)) if Grid::of_arr(x) == Grid::of_arr(y) => match &want {
+                        // both sides also equal the product computed on plain grids (entries are exact)
+                        Some(w) if *w != Grid::of_arr(x) => Err(format!("both sides agree but are not the product: got {} want {}", Grid::of_arr(x).show(), w.show())),
+                        _ => Ok(()),
+                    },
                     _ => Err("law fails on conforming operands".to_string()),
                 })
             };
@@ -267,7 +401,7 @@ fn ident<T: Elem>(n: usize) -> Arr2D<T> {
     // built without Arr2D::identity (which needs From<i32>): 1 = x/x is not available for ints, so
     // go through the product of defaults: use full + set with a value read from a 1-element parse
     let mut m = Arr2D::full(T::default(), n, n);
-    let one = T::read(&mut Toks::new(if T::default().show() == "0" { "1" } else { "4607182418800017408" }));
+    let one = T::one();
     for i in 0..n {
         m[(i, i)] = one;
     }
@@ -281,6 +415,9 @@ pub fn run(line: &str) -> Obs {
     match ty {
         "i" => run_ty::<i64>(cmd, &mut t),
         "f" => run_ty::<f64>(cmd, &mut t),
+        "j" => run_ty::<i32>(cmd, &mut t),
+        "b" => run_ty::<u8>(cmd, &mut t),
+        "g" => run_ty::<f32>(cmd, &mut t),
         _ => panic!("type"),
     }
 }
@@ -318,16 +455,33 @@ pub fn generate(seed: u64, thorough: bool, emit: &mut dyn FnMut(String)) {
                     let a = fill_i(&mut rng, h1, w1, 1);
                     let b = fill_i(&mut rng, h2, w2, 1);
                     let form = ["rr", "oo", "or", "ro"][(h1 + w1 + h2 + w2) % 4];
-                    let forms: Vec<&str> = if thorough { vec!["rr", "oo", "or", "ro"] } else { vec![form] };
-                    for f in forms {
+                    let _ = (form, thorough);
+                    for f in ["rr", "oo", "or", "ro"] {
                         emit(format!("mul i {f} {} {}", req_mat_i(h1, w1, &a), req_mat_i(h2, w2, &b)));
                     }
                     let af = fill_f(&mut rng, h1, w1);
                     let bf = fill_f(&mut rng, h2, w2);
                     emit(format!("dot f {} {}", req_mat_f(h1, w1, &af), req_mat_f(h2, w2, &bf)));
-                    if thorough {
+                    {
                         let form = ["rr", "oo", "or", "ro"][(h1 + 2 * w1 + h2 + w2) % 4];
                         emit(format!("mul f {form} {} {}", req_mat_f(h1, w1, &af), req_mat_f(h2, w2, &bf)));
+                    }
+                    // the same generic code at other element types (i32, u8, f32): values exact in the narrow type
+                    let ty = ["j", "b", "g"][(h1 + w1 * 2 + h2 * 3 + w2 * 5) % 3];
+                    for ty in if thorough { vec!["j", "b", "g"] } else { vec![ty] } {
+                        let form = ["rr", "oo", "or", "ro"][(h1 + w1 + 3 * h2 + w2) % 4];
+                        if ty == "g" {
+                            let a = fill_g(&mut rng, h1, w1);
+                            let b = fill_g(&mut rng, h2, w2);
+                            emit(format!("dot g {} {}", req_mat_f(h1, w1, &a), req_mat_f(h2, w2, &b)));
+                            emit(format!("mul g {form} {} {}", req_mat_f(h1, w1, &a), req_mat_f(h2, w2, &b)));
+                        } else {
+                            let lo = if ty == "b" { 0 } else { -3 };
+                            let a: Vec<i64> = (0..h1 * w1).map(|_| rng.range(lo, 3)).collect();
+                            let b: Vec<i64> = (0..h2 * w2).map(|_| rng.range(lo, 3)).collect();
+                            emit(format!("dot {ty} {} {}", req_mat_i(h1, w1, &a), req_mat_i(h2, w2, &b)));
+                            emit(format!("mul {ty} {form} {} {}", req_mat_i(h1, w1, &a), req_mat_i(h2, w2, &b)));
+                        }
                     }
                 }
             }
@@ -349,6 +503,59 @@ pub fn generate(seed: u64, thorough: bool, emit: &mut dyn FnMut(String)) {
             let a = fill_i(&mut rng, h, w, 2);
             emit(format!("transpose i {}", req_mat_i(h, w, &a)));
             emit(format!("ident i {}", req_mat_i(h, w, &a)));
+            // other element types: transposes, identity (the real `Arr2D::identity` for i64/f64/i32), scalar forms
+            let af = fill_f(&mut rng, h, w);
+            emit(format!("transpose f {}", req_mat_f(h, w, &af)));
+            emit(format!("ident f {}", req_mat_f(h, w, &af)));
+            let aj: Vec<i64> = (0..h * w).map(|_| rng.range(-9, 9)).collect();
+            let ab: Vec<i64> = (0..h * w).map(|_| rng.range(0, 9)).collect();
+            let ag = fill_g(&mut rng, h, w);
+            emit(format!("transpose j {}", req_mat_i(h, w, &aj)));
+            emit(format!("ident j {}", req_mat_i(h, w, &aj)));
+            emit(format!("ident b {}", req_mat_i(h, w, &ab)));
+            emit(format!("transpose b {}", req_mat_i(h, w, &ab)));
+            emit(format!("ident g {}", req_mat_f(h, w, &ag)));
+            emit(format!("transpose g {}", req_mat_f(h, w, &ag)));
+            for own in ["r", "o"] {
+                emit(format!("smul j {own} {} {}", req_mat_i(h, w, &aj), rng.range(-5, 5)));
+                emit(format!("sdiv j {own} {} {}", req_mat_i(h, w, &aj), *rng.pick(&[-3i64, -1, 0, 1, 2, 7])));
+                emit(format!("smul b {own} {} {}", req_mat_i(h, w, &ab), rng.range(0, 9)));
+                emit(format!("sdiv b {own} {} {}", req_mat_i(h, w, &ab), *rng.pick(&[0i64, 1, 2, 3, 200])));
+                emit(format!("smul g {own} {} {}", req_mat_f(h, w, &ag), rbits(rng.range(-8, 8) as f64 / 4.0)));
+                emit(format!("sdiv g {own} {} {}", req_mat_f(h, w, &ag), rbits(*rng.pick(&[0.5f64, -2.0, 4.0, 0.25, -1.0]))));
+                // integer division: every divisor sign, +-1, divisors larger than every entry, the extreme divisors
+                let a = fill_i(&mut rng, h, w, 1);
+                for d in [1i64, -1, 0, 10, -10, i64::MAX, i64::MIN] {
+                    emit(format!("sdiv i {own} {} {d}", req_mat_i(h, w, &a)));
+                }
+                emit(format!("smul i {own} {} 0", req_mat_i(h, w, &a)));
+            }
+        }
+    }
+    // scalar multiply / divide of floats by zero of either sign, infinities, NaN, subnormal, huge and tiny
+    // scalars, non-dyadic divisors (a reciprocal-multiply shortcut rounds differently), on entries of every magnitude
+    // incl. zeros of both signs: elementwise IEEE results, bit for bit
+    let specials = [
+        0.0f64, -0.0, f64::INFINITY, f64::NEG_INFINITY, f64::NAN, f64::MIN_POSITIVE, 5e-324, -5e-324, 1e-310, f64::MAX, -f64::MAX,
+        1e300, 1e-300, 3.0, -7.0, 0.1, 1e-5, 49.0, 1.0 / 3.0, 1.0000000000000002, 0.9999999999999999,
+    ];
+    for (k, sc) in specials.iter().enumerate() {
+        for rep in 0..(if thorough { 6 } else { 2 }) {
+            let (h, w) = if rep == 0 { (2, 3) } else { (1 + rng.below(4) as usize, 1 + rng.below(9) as usize) };
+            let a: Vec<f64> = (0..h * w)
+                .map(|i| match (i + k + rep) % 7 {
+                    0 => 0.0,
+                    1 => -0.0,
+                    2 => rng.uniform(-10.0, 10.0),
+                    3 => rng.uniform(1.0, 2.0) * 2f64.powi(rng.range(-1000, 1000) as i32),
+                    4 => -rng.uniform(1.0, 2.0) * 10f64.powi(rng.range(-300, 300) as i32),
+                    5 => rng.range(-9, 9) as f64,
+                    _ => 5e-324 * rng.range(1, 1000) as f64,
+                })
+                .collect();
+            let own = ["r", "o"][(k + rep) % 2];
+            emit(format!("sdiv f {own} {} {}", req_mat_f(h, w, &a), rbits(*sc)));
+            emit(format!("smul f {own} {} {}", req_mat_f(h, w, &a), rbits(*sc)));
         }
     }
     // sizes well beyond the exhaustive shape sweep (blocked / unrolled loops only show past their block size):
@@ -375,6 +582,63 @@ pub fn generate(seed: u64, thorough: bool, emit: &mut dyn FnMut(String)) {
             }
         }
     }
+    // every outer dimension 6..40 (row blocks / column blocks), both element types
+    for d in 6..=40usize {
+        let k = 1 + d % 3;
+        let a = fill_i(&mut rng, d, k, 1);
+        let b = fill_i(&mut rng, k, 2 + d % 2, 1);
+        emit(format!("dot i {} {}", req_mat_i(d, k, &a), req_mat_i(k, 2 + d % 2, &b)));
+        let a2 = fill_i(&mut rng, 2, k, 1);
+        let b2 = fill_i(&mut rng, k, d, 1);
+        emit(format!("dot i {} {}", req_mat_i(2, k, &a2), req_mat_i(k, d, &b2)));
+        let af = fill_f(&mut rng, d, k);
+        let bf = fill_f(&mut rng, k, d);
+        emit(format!("dot f {} {}", req_mat_f(d, k, &af), req_mat_f(k, d, &bf)));
+        let form = ["rr", "oo", "or", "ro"][d % 4];
+        emit(format!("mul i {form} {} {}", req_mat_i(2, k, &a2), req_mat_i(k, d, &b2)));
+        // a 1x1 factor on either side of a large matrix (conforming or not), and the scalar forms on it
+        let one = [rng.range(-4, 4)];
+        let m = fill_i(&mut rng, d, 1 + d % 5, 1);
+        emit(format!("dot i 1 1 {} {}", one[0], req_mat_i(d, 1 + d % 5, &m)));
+        emit(format!("dot i {} 1 1 {}", req_mat_i(d, 1 + d % 5, &m), one[0]));
+        emit(format!("dot i 1 1 {} {}", one[0], req_mat_i(1 + d % 5, d, &m)));
+        emit(format!("dot i {} 1 1 {}", req_mat_i(1 + d % 5, d, &m), one[0]));
+        emit(format!("mul i {form} 1 1 {} {}", one[0], req_mat_i(1 + d % 5, d, &m)));
+        emit(format!("smul i {} {} {}", ["r", "o"][d % 2], req_mat_i(d, 1 + d % 5, &m), rng.range(-5, 5)));
+        emit(format!("sdiv i {} {} {}", ["r", "o"][d % 2], req_mat_i(1 + d % 5, d, &m), *rng.pick(&[-3i64, 2, 5])));
+        let mf = fill_f(&mut rng, d, 1 + d % 4);
+        emit(format!("smul f r {} {}", req_mat_f(d, 1 + d % 4, &mf), rbits(0.75)));
+        emit(format!("sdiv f o {} {}", req_mat_f(1 + d % 4, d, &mf), rbits(3.0)));
+        emit(format!("transpose i {}", req_mat_i(d, 1 + d % 5, &m)));
+        emit(format!("transpose f {}", req_mat_f(1 + d % 4, d, &mf)));
+        // non-conforming large operands (no 1x1 side): always a shape error
+        let (h2, w2) = (k + 1 + d % 4, 1 + d % 6);
+        let c = fill_i(&mut rng, h2, w2, 0);
+        emit(format!("dot i {} {}", req_mat_i(d, k, &a), req_mat_i(h2, w2, &c)));
+        emit(format!("mul i {form} {} {}", req_mat_i(d, k, &a), req_mat_i(h2, w2, &c)));
+        if d <= 20 {
+            let sq = fill_i(&mut rng, d, d, 0);
+            emit(format!("transpose i {}", req_mat_i(d, d, &sq)));
+            emit(format!("ident i {}", req_mat_i(d, d, &sq)));
+            emit(format!("tprod i {} {}", req_mat_i(d, d, &sq), req_mat_i(d, 2, &fill_i(&mut rng, d, 2, 0))));
+        }
+    }
+    // both dimensions beyond the usual tile sizes (16, 32) at once
+    for (m, k, n) in [(33usize, 34usize, 35usize), (32, 32, 32), (40, 37, 33), (17, 33, 18), (64, 3, 65)] {
+        let a = fill_i(&mut rng, m, k, 1);
+        let b = fill_i(&mut rng, k, n, 1);
+        emit(format!("dot i {} {}", req_mat_i(m, k, &a), req_mat_i(k, n, &b)));
+        emit(format!("transpose i {}", req_mat_i(m, k, &a)));
+        emit(format!("tprod i {} {}", req_mat_i(m, k, &a), req_mat_i(k, n, &b)));
+        let af = fill_f(&mut rng, m, k);
+        let bf = fill_f(&mut rng, k, n);
+        emit(format!("dot f {} {}", req_mat_f(m, k, &af), req_mat_f(k, n, &bf)));
+        emit(format!("transpose f {}", req_mat_f(k, n, &bf)));
+        emit(format!("ident i {}", req_mat_i(m, k, &a)));
+        emit(format!("dot i 1 1 3 {}", req_mat_i(m, k, &a)));
+        emit(format!("smul i r {} -2", req_mat_i(k, n, &b)));
+        emit(format!("sdiv f r {} {}", req_mat_f(m, k, &af), rbits(-0.5)));
+    }
     // float entries of every magnitude (a threshold that drops or clamps small products shows only there):
     // exact powers of two, so products are exact and sums of a few of them too
     for _ in 0..(if thorough { 2000 } else { 200 }) {
@@ -389,6 +653,9 @@ pub fn generate(seed: u64, thorough: bool, emit: &mut dyn FnMut(String)) {
         let bf: Vec<f64> = (0..k * n).map(|_| rng.range(-3, 3) as f64 * 2f64.powi(rng.range(-20, 20) as i32)).collect();
         emit(format!("dot f {} {}", req_mat_f(m, k, &af), req_mat_f(k, n, &bf)));
         emit(format!("smul f r {} {}", req_mat_f(m, k, &af), rbits(2f64.powi(rng.range(-40, 40) as i32))));
+        emit(format!("sdiv f r {} {}", req_mat_f(m, k, &af), rbits(2f64.powi(rng.range(-40, 40) as i32))));
+        let form = ["rr", "oo", "or", "ro"][rng.below(4) as usize];
+        emit(format!("mul f {form} {} {}", req_mat_f(m, k, &af), req_mat_f(k, n, &bf)));
     }
     // laws on random (mostly conforming) triples
     let n_laws = if thorough { 20000 } else { 1500 };
@@ -411,5 +678,18 @@ pub fn generate(seed: u64, thorough: bool, emit: &mut dyn FnMut(String)) {
             req_mat_i(h3, w3, &c)
         ));
         emit(format!("tprod i {} {}", req_mat_i(h1, w1, &a), req_mat_i(h2, w2, &b)));
+        if rng.chance(1, 4) {
+            // the same laws on exact dyadic floats (binary64 and binary32) and on i32
+            let (af, bf, cf) = (fill_g(&mut rng, h1, w1), fill_g(&mut rng, h2, w2), fill_g(&mut rng, h3, w3));
+            let ty = *rng.pick(&["f", "g"]);
+            emit(format!("assoc {ty} {} {} {}", req_mat_f(h1, w1, &af), req_mat_f(h2, w2, &bf), req_mat_f(h3, w3, &cf)));
+            emit(format!("tprod {ty} {} {}", req_mat_f(h1, w1, &af), req_mat_f(h2, w2, &bf)));
+            emit(format!("assoc j {} {} {}", req_mat_i(h1, w1, &a), req_mat_i(h2, w2, &b), req_mat_i(h3, w3, &c)));
+        }
     }
+}
+
+/// entries k/4 with |k| <= 8: every product of three of them summed over <= 40 terms is exact in binary32
+fn fill_g(rng: &mut Rng, h: usize, w: usize) -> Vec<f64> {
+    (0..h * w).map(|_| rng.range(-8, 8) as f64 / 4.0).collect()
 }
